@@ -341,6 +341,11 @@ class Producer(object):
         We've determined the partition for each message group in the batch, or
         got errors for them.
         """
+        if self.stopping:
+            # stop() cancelled the partition lookups, which completes the
+            # lookup list and brings us here: send nothing, stop() fails every
+            # outstanding request itself.
+            return
         # We use these dictionaries to be able to combine all the messages
         # destined to the same topic/partition into one request
         # the messages & deferreds, both by topic+partition
